@@ -6,54 +6,54 @@ BASELINE_OFF = "cd /repo && go build ./... && go test -mod=mod -vet=off -count=1
 
 CLAIMED = {
  # id: (level text, level note, design ref)
- "C01": ("Deductive proof that enc/v1 follows the published format (README as oracle): identifier tables and aliases are mutually inverse; nonce = 7-byte prefix | BE32(segment number) | last flag; exactly one Seal/Open per segment with that nonce; header and payload keys are HKDF-SHA256 with the documented info/salt; the header is scheme | LF | manifest | LF | base64(HMAC) | LF within 64 KiB; processSegments splits the abstract source into consecutively numbered segments of exactly S bytes with only the last one shorter, non-empty and flagged, independently of how the reader chunks its answers (universally quantified (n, err)); key-name options.",
-         "Assumes AEAD/HKDF/HMAC/base64/JSON/io.Pipe contracts (encv1_libs.spec, crypto.spec, hmac_binary.spec). 'An independent implementation decrypts it' is reduced to 'the code equals the README's spec functions'; the goroutine/pipe hand-off is io.Pipe's contract; the round trip follows from these facts plus AEAD inverse (paper step).",
-         "DESIGN.md §6 C01"),
- "C02": ("Deductive proof, relative to ideal AEAD/MAC contracts, of the ordering and bookkeeping obligations: processSegments starts only after VerifyHeaderSignature returned nil; a wrong-length unwrapped key is replaced by 32 zero bytes; DecryptSegment writes only Open's result and nothing on failure; clean close only after an accepted final segment (known finding: the empty-stream path, registered in known_findings.json); source-reader errors close the pipe with that error; counter never wraps.",
-         "INT-CTXT and MAC unforgeability are assumptions; prefix property of released bytes is argued on paper from the per-segment facts. Known finding (format-level): a document cut after its header decrypts to the empty message.",
-         "DESIGN.md §6 C02"),
- "C03": ("Deductive proof (govc: VCs generated from go/ssa of /repo, discharged by z3/cvc5) of the parts of the property that are this repository's code: dispatch tables against the Supported*Algorithms lists, sentinel errors and no-output-on-error for every helper, PKCS#7 pad/unpad against RFC 5652 as quantified postconditions, AEAD plumbing (what is handed to Seal/Open and how the output is split), AES-CBC-HMAC-SHA2 structure per RFC 7518 (key split, MAC input order AD|IV|CT|AL, tag checked before decryption), key-wrap length/integrity facts. Primitive ciphers are assumed contracts.",
-         "Assumes: libspec contracts of the standard library and jwx (listed in evidence trusted_base), govc's SSA->SMT encoding, solver soundness. Interop with independent implementations and strength of tamper rejection are reduced to 'code equals the spec functions' plus the primitives' assumed contracts; RFC 3394 functional correctness of aeskw is not proved.",
-         "DESIGN.md §6 C03"),
- "C04": ("Deductive proof that parsing and matching implement the documented cron rules: getBits equals the recursive bit-set spec for stepped ranges (bit-vector mode), getRange accepts exactly the documented forms with the documented value, getField is the union of its terms, normalizeFields accepts exactly the documented field counts and fills defaults/optionals on the documented side, the five descriptors equal their documented equivalents bit for bit, Parse wires the six fields in order and refuses empty specs, unknown zones, descriptors when disabled; dayMatches (and/or rule), Every and ConstantDelaySchedule.Next; the package tables are verified in the initializer.",
-         "Assumes contracts of strings/strconv/time (uninterpreted atoi/lower/split facts in /verif/libspec/strings_time.spec), int-view bridging of the bit-vector functions. The minimality/soundness of SpecSchedule.Next's calendar search depends on the time package's calendar arithmetic and is NOT proved (safety only); it is listed as not covered.",
-         "DESIGN.md §6 C04"),
- "C06": ("Deductive proof of the sequential kernel of queue.Processor: the keyed priority queue keeps its index/heap/map invariant through Insert (with replace), Remove, Pop, Peek, Update; Less is the strict order on ScheduledTime; execute calls the callback only with the item that is the head at pop time under the lock and equals the peeked one; processLoop reaches execute only if the item is due within 500 microseconds or after the timer armed with exactly the remaining time fired; Enqueue/Dequeue compute isFirst exactly and call process under the lock.",
-         "container/heap is an assumed contract (heap.spec); Queueable methods are assumed pure. Not covered (outside this family): the stranded-item liveness question, Close/WaitGroup ordering, exactly-once over whole histories, timer semantics.",
-         "DESIGN.md §6 C06"),
- "C07": ("Deductive proof of absence of panics for the entry points under contract: every index, slice, nil-dereference, division, make, type-assertion and explicit-panic obligation generated from the SSA is discharged for all inputs, callee documented panics (CryptBlocks, NewCBCDecrypter, Seal, ed25519.Verify, ...) are excluded by proof; loops carry variants where stated.",
-         "Assumes libspec contracts incl. their documented panics, address-space bound on lengths (2^56), govc's encoding. Entry points outside the contract files (reflection-based metadata/config decoding, time parsing, pem) are not covered and are listed in DESIGN.md.",
-         "DESIGN.md §6 C07"),
- "C08": ("Deductive proof of ownership and immutability contracts: the logger registry is only touched under its lock, NewLogger never replaces a registered logger and getLoggers hands out a fresh copy (monitor rule, all interleavings); cron's package-level tables and default parser are never written outside the verified initializer (frame obligations on every cron function).",
-         "Data-race freedom as such is not in this family; only lock-structured and frame-structured non-interference is proved. enc/v1 buffer-pool ownership and byteslicepool are covered when their contracts land (see evidence).",
-         "DESIGN.md §6 C08"),
- "C09": ("Deductive proof of the monitor invariant of the coalescing rate limiter's lock for all interleavings of lock-respecting goroutines: signals never exceed Adds, a signal is spawned only when something is pending, Add always records a pending event, first event of a window and the pending cap fire at once; option validation.",
-         "Monitor rule for sync.RWMutex (mutual exclusion assumed). Timelines (when signals arrive), Close/WaitGroup joins and goroutine hand-offs are outside this family and not claimed.",
-         "DESIGN.md §6 C09, §3"),
- "C13": ("Deductive proof of the per-key bookkeeping of the lock maps for all interleavings of lock-respecting goroutines: fifo map entries exist exactly while some holder/waiter unit exists (no nil dereference, no counter underflow for correctly paired callers, entry pruned when the last unit leaves, per-key lock taken only after the map lock is released); cmap mutex map: lookups under the read lock, creation/Delete*/Clear under the write lock, per-key unlock before removal.",
-         "Mutual exclusion and FIFO grant order are the semantics of Go channels and sync.RWMutex (assumed). lock.Context / OuterCancel goroutine protocols are not covered.",
-         "DESIGN.md §6 C13, §3"),
- "C14": ("Deductive proof of linearizability of the concurrent map, atomic-counter map and concurrent slice by the coarse-grained-locking argument: every method has one linearizing critical section whose effect on the abstract state equals the sequential model (state after acquisition = arbitrary, constrained by the lock invariant), including the double-checked GetOrCreate; pointer-level contracts of ring.Ring's straight-line methods.",
-         "Meta-theorem (mutual exclusion => ordering by acquisition yields a legal sequential history) is stated, not mechanised. ring loops (Len/Move/New/Do) and ring.Buffered are not yet under contract.",
-         "DESIGN.md §6 C14, §3.3"),
- "C15": ("Deductive proof of ttlcache's sequential semantics against an abstract map (ghost has/val/exp on the haxmap): Set stores (value, now + min(ttl, maxTTL)) for that key only; Get returns the value iff present and strictly before expiry; Delete; Cleanup deletes only expired entries it enumerated; Reset; Stop closes once.",
-         "Assumes haxmap and k8s clock contracts (haxmap_clock.spec), a ForEach summary (explicit at-assume), ttl <= 292 years. Periodic ticking and the goroutine join in Stop are not covered.",
-         "DESIGN.md §6 C15"),
- "C16": ("Deductive proof that the stream wrappers implement the io.Reader contract over the right abstract content for every source satisfying that contract (universally quantified (n, err) answers = every chunking): limit, EOF/ErrStreamTooLarge discrimination, concatenation order, tee log, close-once bookkeeping through Read and WriteTo.",
-         "Assumes the io.Reader/io.Closer/io.Writer contracts in /verif/libspec/io.spec (ghost content/position/close-count per interface value), distinct source objects, govc's encoding, solver soundness.",
-         "DESIGN.md §6 C16"),
- "C17": ("Deductive proof of frame obligations: every store, copy, in-place append and callee effect in the crypto helpers under contract targets memory allocated in the same activation or listed in the modifies clause (empty, or dst[len:cap] for the explicit AEAD destination); spare capacity is part of the goal.",
-         "Assumes the frame clauses of library callees in /verif/libspec, govc's encoding, solver soundness.",
-         "DESIGN.md §6 C17"),
- "C18": ("Deductive proof against a ghost filesystem: the crash invariant (target absent, or a symlink to a complete version directory that is not the one being filled) is asserted after every filesystem call of Write, i.e. at every crash point, for every file map; no-crash postconditions; recoverability: a fresh Dir writing from any crash-reachable state succeeds when the individual os calls do not fail for external reasons.",
-         "Assumes the os/filepath contracts in /verif/libspec/os_fs.spec (POSIX rename atomicity, symlink semantics), completeness of Go's range over a map (listed), distinct time stamps, single writer.",
-         "DESIGN.md §6 C18"),
- "C19": ("Deductive proof of the sequential laws of the SPIFFE source and of the readiness wait order: no goroutine blocks on readyCh while holding the lock Run needs (at-assert at every blocking receive/select); Run closes readyCh exactly once before unlocking on both paths and sets currentSVID iff the fetch succeeded; GetX509SVID returns the current SVID or an error; renewalTime is the half-life; runRotation arms min(1 min, renewTime-now), fetches after the wake-up past renewTime, never writes currentSVID on the error path and retries after 10 s; fetchIdentityCertificate uses a key generated in the same activation and hands dir.Write exactly {key.pem, cert.pem, ca.pem}.",
-         "Assumes contracts for x509/ecdsa/pem/clock (spiffe_libs.spec), the dir.Write contract (verified separately). Wall-clock timeliness of renewal across goroutines is outside this family and not claimed.",
-         "DESIGN.md §6 C19"),
- "C20": ("Deductive proof of the 'never earlier' half for all interleavings: the watcher goroutine calls cancel() only when every member it tracked at its last look has ended or Cancel was called (loop invariant under the read lock, rely/guarantee across the lock gap, each writer section proved to satisfy the rely); Add/Cancel/Size against the sequential model of their critical section.",
-         "Channel contract (a receive from a Done channel returns only once it is closed; select takes default only if no case is ready) and monitor rule assumed. Eventual cancellation and termination of the watcher are liveness and not claimed.",
-         "DESIGN.md §6 C20, §3.4"),
+ "C01": ("Deductive proof (govc: VCs from go/ssa of /repo, z3/cvc5) that enc/v1 follows the published format: identifier tables and the single-digit JSON ids on the wire; nonce = 7-byte prefix | BE32(segment number) | last flag; exactly one Seal/Open per segment under the AEAD that getCipher built from the file key's cipher and payload key; HKDF and HMAC use SHA-256 with the documented info/salt, 32-byte MAC, 44-character third header line; the header is written first and exactly once; processSegments splits the abstract source into consecutively numbered segments independently of chunking; the producer/consumer goroutines are started with the right function, bound key, segment size and streams; the bytes left in the stream after the header are exactly the source content behind the third LF; key-name options incl. refusal of names that are not valid UTF-8; Encrypt/Decrypt refuse no well-formed input.",
+         "Assumes AEAD/HKDF/HMAC/base64/JSON/io.Pipe contracts (libspec). The round trip as a theorem (AEAD inverse, JSON value round trip) is an assumption; manifest struct tags are not checked; the 64 KiB header limit is not in the README. Defects found and repaired: file key spare capacity, non-UTF-8 key names.",
+         "DESIGN.md 0.3b/0.3c, section 6 C01"),
+ "C02": ("Deductive proof, relative to ideal AEAD/MAC contracts: the consumer starts only after the header MAC verified under the key imported from a SUCCESSFULLY unwrapped file key (repaired forgery defect), and it is DecryptSegment bound to that key with segment size 65552 on the rest of the stream; DecryptSegment writes only Open's result and nothing on failure; a clean close happens only after an accepted final segment; every close-with-error carries a non-EOF error; the first non-EOF source error surfaces (end of input = the io.EOF sentinel itself, repaired); Decrypt's error paths return no stream; the segment counter never wraps.",
+         "INT-CTXT and MAC unforgeability are assumptions; the prefix property of released bytes is a paper step from the per-segment facts. Known finding (format-level, reported not raised): a document cut right after its header decrypts to the empty message.",
+         "DESIGN.md 0.3a-0.3c, section 6 C02"),
+ "C03": ("Deductive proof of the parts of the property that are this repository's code: dispatch tables against the Supported*Algorithms lists, sentinel errors (incl. key-wrap and RSA sizes) and no-output-on-error for every helper, PKCS#7 against RFC 5652, AEAD plumbing with key / IV / mode binding ghosts (the cipher is keyed with the given key, CBC runs with the given IV over the given bytes, results are the primitive's results), AES-CBC-HMAC-SHA2 structure per RFC 7518 incl. hash identity, the ECDSA curve of each ES* algorithm, the PSS salt length, key sources of the asymmetric helpers; the repository's own cipher.AEAD implementation is checked against an honest interface libspec (behavioural subtyping). Bounded: aeskw Wrap/Unwrap against an RFC 3394 reference incl. the refused sizes.",
+         "Primitive ciphers, hashes and jwx are assumed contracts; 'decryption inverts encryption' and interoperability reduce to 'the code equals the standard's construction' plus those contracts. Defects found and repaired: KW sizes, empty CBC ciphertext, EC curve, PSS salt, RSA sentinel, and the earlier NOPAD/Ed25519/Open/Unwrap ones.",
+         "DESIGN.md 0.3b/0.3c, section 6 C03"),
+ "C04": ("Deductive proof that parsing and matching implement the documented cron rules: getBits (bit-vector mode), getRange, getField over strings.Split (empty terms refused, every term parsed with the field's bounds), normalizeFields, descriptors, @every, and the wiring of all of these up to Parse / ParseStandard (field text and bounds per position, zone name, a refused field refuses the spec); local soundness of SpecSchedule.Next (starts at the next whole second, the returned instant passed the second / minute / hour / month / day tests, zero time only past the five-year horizon); dayMatches, Every, ConstantDelaySchedule.Next; package tables established by the initializer. Bounded stand-ins (labelled bounded): Next against a wall-clock reference scan in UTC / fixed-offset zones, in DST zones with starts biased to the transitions, and in the hard zones.",
+         "Minimality of Next's calendar search is bounded only. Known finding (reported, not raised; identified input by input through a pinned copy of the search): Next is wrong in zones whose DST transition removes local midnight (also east of UTC), shifts by 30 minutes, or whose offset is not a whole minute.",
+         "DESIGN.md 0.3a-0.3c, section 6 C04"),
+ "C06": ("Deductive proof for queue.Processor: the keyed priority queue invariant through all operations; execute calls the callback only with the head at pop time; not early; the loop is kicked whenever the earliest time got earlier; NO STRANDED ITEM: monitor invariant (queue non-empty and not stopped implies a loop is serving; the running slot is occupied only while a loop serves), the loop gives the slot back exactly once and, on the empty exit, under the lock (repaired defect); Close sends the stop signal on both of its paths (repaired), takes the slot for good and calls the join.",
+         "Assumed: two channel-semantics facts (a non-blocking send on the 1-slot channel takes default only when the slot is occupied; a receive on a channel nobody sends on completes only after close), WaitGroup join semantics, container/heap, the callback keeps the processor's configuration. Exactly-once over whole histories is a paper composition; timer delivery is the clock's.",
+         "DESIGN.md 0.3b/0.3c, section 6 C06"),
+ "C07": ("Deductive proof of absence of panics for the entry points under contract: every index, slice, nil-dereference (incl. calls of nil function values), division, make, type-assertion and explicit-panic obligation generated from the SSA is discharged for all inputs; documented callee panics are excluded by proof; constructs outside the modelled subset are failing obligations, not footnotes; loops carry variants where stated. Bounded: termination of SpecSchedule.Next.",
+         "Assumes libspec contracts incl. their documented panics, address-space bound on lengths (2^56). Reflection-driven decoding beyond its prelude and recursion termination are not covered.",
+         "DESIGN.md section 6 C07"),
+ "C08": ("Deductive proof of ownership and non-interference through package-level state: pooled buffers (enc/v1 BufPool, byteslicepool incl. []byte elements) are owned while used, released once, never returned to callers, zeroed to capacity; the logger registry maps different names to different loggers and sinks, hands out copies, and every access to a logger's entry happens under its lock (repaired race); cron's package tables are established by the initializer and written by nobody else (frames on every option, parser and logger helper).",
+         "Data-race freedom as such is not in this family: lock-structured and frame-structured non-interference is what is proved. The cron table invariant at Parse's precondition is an assumption (no package invariants in the contract language); the scheduler part of cron is not covered.",
+         "DESIGN.md 0.3b/0.3c, section 6 C08"),
+ "C09": ("Deductive proof of the monitor invariants of the coalescing rate limiter for all interleavings of lock-respecting goroutines: no Add is lost (adds == covered + pending), signals never exceed Adds, first event of a window and the pending cap fire at once, the window doubles from InitialDelay with saturation at MaxDelay (repaired overflow) and an open window has an armed timer, every Add spawns exactly one registered token hand-off, every flush exactly one registered signal hand-off that sends at most once, Run listens on all four channels and ends only on close or cancellation.",
+         "Monitor rule for sync.RWMutex assumed. Timelines, channel delivery and WaitGroup joins are outside this family. Known finding (reported, not raised): Close waits for the WaitGroup while holding the lock the run loop needs.",
+         "DESIGN.md 0.3a-0.3c, section 6 C09"),
+ "C13": ("Deductive proof of the bookkeeping of the lock primitives for all interleavings of lock-respecting goroutines: fifo map (entry present iff users > 0, same mutex per key, pruned at zero, which mutex is used); per-key RW-mutex map with user counts (repaired exclusion defect): registration under the map lock, an entry is removed by delete-and-release only when nobody else uses it; one-slot token channels and token accounting (fifo.Mutex, lock.Context, OuterCancel); lock.Context waits on its own context; OuterCancel: fresh reader slot, message shapes across the channels (an error answer holds nothing), release of exactly the own registration once with the configured cause, grace duration, the writer answers only after wg.Wait and keeps the slot, sweeps reach every registered reader.",
+         "Mutual exclusion and FIFO grant are the semantics of Go channels and sync.RWMutex (assumed); OuterCancel additionally assumes WaitGroup count = registered readers and a single hold-handling goroutine. Known finding (reported, not raised): OuterCancel.RLock keeps waiting after its context ended while the handler is busy.",
+         "DESIGN.md 0.3a-0.3c, section 6 C13"),
+ "C14": ("Deductive proof of linearizability of the concurrent map, atomic-counter map and concurrent slice (one linearizing critical section per method against the sequential model, incl. complete duplicate-free Keys / Range / ForEach, constructors, the slice owns its storage and hands out no spare capacity (repaired)); pointer-level contracts of ring.Ring incl. its loops; ring.Buffered refines a FIFO queue for every operation sequence incl. RemoveFront on the empty queue and huge buffer sizes (repaired). Bounded cross-checks: Buffered against a slice queue (exhaustive short sequences + random), ring.Ring differentially against container/ring.",
+         "Meta-theorem (mutual exclusion => acquisition order is a legal sequential history) is stated, not mechanised; completeness of range-over-map is a listed language-semantics assumption; callbacks are assumed not to touch the structure.",
+         "DESIGN.md 0.3b/0.3c, section 6 C14"),
+ "C15": ("Deductive proof of ttlcache's sequential semantics against an abstract map: Set stores (value, now + min(ttl, maxTTL)) for that key only and never later than that; Get hits iff present and strictly before expiry; Delete; Cleanup removes only entries expired at the clock reading it actually took; Reset; life cycle: the cleaner closes its channel last and only after the stop signal, every Stop waits for it. Bounded stand-in (labelled bounded) for the schedule-quantified half: concurrent Set/Get/Cleanup against the quiescent expectations.",
+         "haxmap is ASSUMED linearizable with a complete ForEach. Known finding (reported, not raised): it is not, under concurrent Set and bulk Del (live entries vanish; Reset can leave entries that Get still returns).",
+         "DESIGN.md 0.3a-0.3c, section 6 C15"),
+ "C16": ("Deductive proof that the stream wrappers implement the io.Reader contract over the right abstract content for every source satisfying that contract (universally quantified (n, err) answers = every chunking): limit verdicts, concatenation order, tee bytes for every outcome, progress, close-once as state invariants, constructors, WriteTo bytes / order / sum.",
+         "Assumes the io contracts in libspec/io.spec; the whole-stream statement is a paper induction over the per-call clauses. Known finding (reported, not raised): MultiReaderCloser drops a source on http.ErrBodyReadAfterClose without it being exhausted or closed. Defects repaired: MaxInt64 limit, EOF with extra byte, WriteTo closing, tee wrapped EOF.",
+         "DESIGN.md 0.3a-0.3c, section 6 C16"),
+ "C17": ("Deductive proof of frame obligations: every store, copy, clear, in-place append, callee effect and goroutine spawned by the crypto helpers targets memory allocated in the same activation or listed in the modifies clause (empty, or exactly the explicit AEAD destination window); every exported function of the four packages that takes a []byte is under such a contract (coverage obligation).",
+         "Assumes the frame clauses of library callees in /verif/libspec.",
+         "DESIGN.md 0.3b/0.3c, section 6 C17"),
+ "C18": ("Deductive proof against a ghost filesystem with an honest symlink model (link text resolved from the link's directory; relative and absolute targets): at every filesystem call of Write, i.e. at every crash point, the target is absent or resolves to exactly one Write's complete set and, once present, never becomes absent; the set shown after a successful Write is exactly the given files; nothing this Dir created is left behind (also after a restart: the previous version is adopted and removed); error returns leave the target unchanged and clean up; recoverability from every crash-reachable state.",
+         "Assumes the os/filepath contracts in libspec/os_fs.spec (POSIX rename atomicity, no symlinked ancestors of the target, page-cache crash model), Sprintf of the version name, single writer; 'only the current version remains' holds when the cleanup calls succeed. Seven defects repaired.",
+         "DESIGN.md 0.3b/0.3c, section 6 C18"),
+ "C19": ("Deductive proof of the laws of the SPIFFE source: no goroutine blocks on readyCh while holding the lock Run needs; Run closes readyCh exactly once before unlocking on both paths, records success or failure of the initial fetch, starts the rotation with the caller's context; Ready/GetX509SVID wait on readyCh (or the context) and answer accordingly; runRotation ends only when the context ends, stores every renewed SVID, retries a failed renewal after 10 s and never postpones because of a failure; fetchIdentityCertificate refuses nil certificates (repaired), publishes exactly {key.pem, cert.pem, ca.pem} of this fetch once, and a failed fetch leaves the published set alone (repaired in dir.Write).",
+         "Assumes contracts for x509/ecdsa/pem/clock, the dir.Write contract (verified separately), callbacks that terminate and do not call back. Wall-clock timeliness across goroutines is not claimed.",
+         "DESIGN.md 0.3b/0.3c, section 6 C19"),
+ "C20": ("Deductive proof for all interleavings: the watcher waits on exactly its current member and the closed channel and calls cancel() only when every member it tracked has ended or Cancel was called; NewPool tracks exactly its live arguments and derives the pool context from Background; Add tracks the offered context unless the pool has ended or was cancelled; Cancel empties the pool and closes the closed channel once; Size; nobody else calls cancel; the lock hand-off to the watcher is a precondition proved at the go statement.",
+         "Channel semantics (a receive from a Done channel completes only once it is closed; default only if no case is ready) are stated once, generally, as assumptions tied to the real select operands. Eventual cancellation and watcher termination are liveness and not claimed; composing 'tracked' with the watcher law is a paper step.",
+         "DESIGN.md 0.3b/0.3c, section 6 C20"),
 }
 
 REASON_WIP = "check not built yet in this round (planned: see DESIGN.md §6); not claimed until its obligations discharge on the unchanged tree"
